@@ -94,6 +94,10 @@ Step ==
                  /\ live' = (fails = {})
                  /\ dev' = d /\ stream' = s /\ seq' = 0 /\ mon' = 0
                  /\ UNCHANGED << ep, ncalls, cnt >>
+         [] live /\ e.e = "enc.recopy" ->           \* the encoder replaced by a copy of itself: nothing a user can see changes
+              /\ Report(IF e.dev = dev /\ e.stream = stream /\ e.seq = seq THEN {} ELSE {"NC"})
+              /\ dev' = e.dev /\ stream' = e.stream /\ seq' = e.seq /\ mon' = IF e.seq = seq THEN mon ELSE e.seq
+              /\ UNCHANGED << ep, live, ncalls, cnt >>
          [] live /\ e.e = "enc.encode" ->
               LET fails == EncodeFails(e) IN
               /\ Report(fails)
